@@ -1583,6 +1583,24 @@ SoPlexBase<R>& SoPlexBase<R>::operator=(const SoPlexBase<R>& rhs)
       _hasBasis = rhs._hasBasis;
       _applyPolishing = rhs._applyPolishing;
 
+      // copy the remaining state that the constructors initialize; without this a copy-constructed object reads
+      // uninitialized counters and flags (e.g. when deciding whether to re-apply persistent scaling)
+      _rationalFeastol = rhs._rationalFeastol;
+      _rationalOpttol = rhs._rationalOpttol;
+      _rationalMaxscaleincr = rhs._rationalMaxscaleincr;
+      _optimizeCalls = rhs._optimizeCalls;
+      _unscaleCalls = rhs._unscaleCalls;
+      _hasOldBasis = rhs._hasOldBasis;
+      _hasOldFeasBasis = rhs._hasOldFeasBasis;
+      _hasOldUnbdBasis = rhs._hasOldUnbdBasis;
+      _boostingLimitReached = rhs._boostingLimitReached;
+      _switchedToBoosted = rhs._switchedToBoosted;
+      _certificateMode = rhs._certificateMode;
+      _lastStallPrecBoosts = rhs._lastStallPrecBoosts;
+      _factorSolNewBasisPrecBoost = rhs._factorSolNewBasisPrecBoost;
+      _nextRatrecPrecBoost = rhs._nextRatrecPrecBoost;
+      _prevIterations = rhs._prevIterations;
+
       // rational constants do not need to be assigned
 #ifdef SOPLEX_WITH_BOOST
       _rationalPosone = 1;
